@@ -60,6 +60,7 @@ type HistCfg struct {
 	Idempotent        bool // repeat a successful add and demand that nothing changes
 	StatusAfterCommit bool // `status` right after a successful commit must list nothing staged
 	CommitFirst       bool // start with one commit
+	FreshPct          int  // percent of cases that start without any commit (default 15 via histCheck)
 	ReflogAfter       bool // run `reflog` after every invocation and compare with the listing before
 	CatTrees          bool // `cat-file -p` every tree of a new commit
 
@@ -248,6 +249,9 @@ func (h *Hist) X(tz int, args ...string) *Trans {
 	h.lines = append(h.lines, argvLine(tz, args))
 	h.outs = append(h.outs, res.Class)
 	h.stats["X."+args[0]+"."+res.Class]++
+	if res.Class == "error" && os.Getenv("VERIF_DEBUG") != "" {
+		h.stats["E."+args[0]+": "+clip(strings.TrimPrefix(firstLine(res.Stderr), "Error: "), 60)]++
+	}
 	var vs []Viol
 	for _, o := range h.cfg.Oracles {
 		vs = append(vs, o(t)...)
@@ -375,6 +379,12 @@ func (h *Hist) probes(t *Trans) {
 			case t.Args[0] == "branch" && len(t.Args) == 3 && t.Args[1] == "-r":
 				wantK = 2
 			}
+		}
+		if t.Res.Class == "error" && (t.Args[0] == "reset" || t.Args[0] == "commit" || t.Args[0] == "switch") && (k == 0 || k == 1) {
+			// a command that failed after it had moved HEAD may or may not have logged the move: only the
+			// earlier entries are constrained
+			wantK = k
+			kind = ""
 		}
 		if k != wantK {
 			h.addViol(t2, "append", fmt.Sprintf("listing grew by %d entries after `goit %s` (%s), expected %d", k, strings.Join(t.Args, " "), t.Res.Class, wantK))
@@ -522,6 +532,21 @@ func (h *Hist) step() {
 			h.X(tz, append([]string{"rm"}, args...)...)
 		}
 	case "commit":
+		// most commits should have something to commit: stage a change first when nothing is staged
+		if d, ok := stagedDiff(h.obs); ok && len(d) == 0 && r.chance(4, 5) {
+			switch r.intn(4) {
+			case 0:
+				if f, ok := h.pickFile(); ok {
+					h.W("write", f, h.content())
+					h.X(tz, "add", f)
+					break
+				}
+				fallthrough
+			default:
+				h.W("write", h.randPath(), h.content())
+				h.X(tz, "add", ".")
+			}
+		}
 		h.X(tz, "commit", "-m", msg())
 	case "branch":
 		n := r.pick(branchNames)
@@ -704,8 +729,13 @@ func runHistCase(ctx *Ctx, cfg *HistCfg, r *rng, idx int) (Case, []string, []Fin
 	if cfg.Setup != nil {
 		cfg.Setup(r, h)
 	}
-	if cfg.CommitFirst {
+	// most histories start with a commit (so that branches, resets, restores and the reflog have something
+	// to work on); the fresh-repository state is kept for a fraction of the cases
+	if cfg.CommitFirst || r.intn(100) >= cfg.FreshPct {
 		h.W("write", h.randPath(), h.content())
+		if r.chance(1, 2) {
+			h.W("write", h.randPath(), h.content())
+		}
 		h.X(0, "add", ".")
 		h.X(0, "commit", "-m", "first")
 	}
